@@ -813,9 +813,9 @@ class FunctionCheck:
                                 row += 1
                                 continue
                             if row >= nat.shape[0]:
-                                raise RuntimeError("encoder cross-check: %s output %s has %d rows natively, more symbolically" % (self.qn, name, nat.shape[0]))
+                                return self._encoder_mismatch("output %s has %d rows natively, more symbolically" % (name, nat.shape[0]))
                             if np.isfinite(nat[row]).all() and not close(float(val), nat[row], 1e-7, 1e-9):
-                                raise RuntimeError("encoder cross-check failed for %s output %s: term=%s native=%s input=%s" % (self.qn, name, val, nat[row], jsonable_vals(v)))
+                                return self._encoder_mismatch("output %s: term=%s native=%s input=%s" % (name, val, nat[row], jsonable_vals(v)))
                             row += 1
                     else:
                         try:
@@ -824,11 +824,32 @@ class FunctionCheck:
                             continue
                         natf = float(np.asarray(nat, dtype=float))
                         if math.isfinite(natf) and not close(float(val), natf, 1e-7, 1e-9):
-                            raise RuntimeError("encoder cross-check failed for %s output %s: term=%s native=%s input=%s" % (self.qn, name, val, natf, jsonable_vals(v)))
+                            return self._encoder_mismatch("output %s: term=%s native=%s input=%s" % (name, val, natf, jsonable_vals(v)))
                 done += 1
                 break
         self.ck.vacuity.setdefault("encoder_crosscheck", {})[self.qn] = done
         return done
+
+
+def _fc_encoder_mismatch(self, msg):
+    """the terms extracted from the real function do not reproduce its native result: whatever was proved about this function on this
+    tree is not trusted.  If the function already fails an obligation the divergence is that failure seen again (contract stubs and real
+    callees differ exactly where the call site breaks the callee's contract); otherwise every discharged obligation of the function is
+    withdrawn (undecided).  Never a violation by itself."""
+    ck = self.ck
+    pre = "%s/%s/" % (ck.prop, self.qn)
+    if any(o.id.startswith(pre) for o, _p, _s in ck.violations) or any(o.id.startswith(pre) for o, _k in ck.known_hits):
+        ck.notes.append("encoder cross-check of %s diverges after a refuted obligation of the same function: %s" % (self.qn, msg[:200]))
+        return 0
+    for o in ck.obs:
+        if o.id.startswith(pre) and o.status == "discharged":
+            o.status = "undecided"
+            o.note = (o.note + " | " if o.note else "") + "withdrawn: encoder cross-check failed (%s)" % msg[:160]
+            ck.undecided.append(o)
+    return 0
+
+
+FunctionCheck._encoder_mismatch = _fc_encoder_mismatch
 
 
 def jsonable_vals(v):
